@@ -75,6 +75,8 @@ pub enum AuthRes {
     /// vouch for an identity derived from the claim (so that it differs from it and from everybody else's):
     /// name "v-<claimed name>", the claimed UUID with its low 64 bits inverted, one property naming the claim
     Derived,
+    /// the service fails for players whose claimed name starts with this prefix and vouches for the claim of everybody else
+    ErrorIfName { prefix: String },
     Profile {
         name: String,
         uuid: String,
@@ -419,6 +421,8 @@ impl AuthenticationAdapter for SimAuth {
                 properties: vec![],
                 profile_actions: vec![],
             }),
+            AuthRes::ErrorIfName { prefix } if user.0.starts_with(prefix.as_str()) => Err(sim_err()),
+            AuthRes::ErrorIfName { .. } => Ok(Profile { id: *user.1, name: user.0.to_string(), properties: vec![], profile_actions: vec![] }),
             AuthRes::Derived => Ok(Profile {
                 id: Uuid::from_u128(user.1.as_u128() ^ 0xffff_ffff_ffff_ffff),
                 name: format!("v-{}", user.0),
